@@ -117,7 +117,8 @@ def expected(L, R, op):
         return ('class', 'SpatialMomentum')
     if R == 'SpatialInertia' and op == 'mul' and L in ('SpatialAcceleration', 'SpatialVelocity'):
         return ('unjudged', 'docstring-only pair (a * I)')
-    if L == 'SpatialVelocity' and op == 'matmul' and R in ('SpatialForce', 'SpatialMomentum'):
+    if L == 'SpatialVelocity' and op == 'matmul' and R in SV:
+        # v @ x is the spatial cross product of a velocity with any motion or force vector (SpatialM6.cross docstring)
         return ('unjudged', 'cross product, values decided by C20')
     return ('raise',)
 
